@@ -43,6 +43,7 @@ U_lww   == Valid \cup {Relabel, ByReader}
 U_lww4  == {A1, A3, B1, B3, Relabel}          \* quick tier: 2 slots x 2 timestamps + the relabelled value
 U_lww6  == Valid                              \* thorough tier: 2 slots x 3 timestamps
 U_auth  == {A1, A3, B2} \cup Mutants
+U_auth_q == {A1, B2} \cup Mutants              \* quick tier
 U_ts    == {B2, Negative, Huge1, Huge2}
 U_xauth == {A1, B2, Late, Relabel, ByReader}
 U_local == {A1, A3, B3, Relabel}
